@@ -34,27 +34,60 @@ ESCAPES = [
     r"std::thread::", r"std::\{", r"\bcrossbeam", r"\brayon\b", r"\bparking_lot\b", r"\btokio\b",
     r"std::sync\s*;", r"\bCondvar\b", r"\bBarrier\b", r"std::process", r"\bOnceLock\b", r"\blazy_static\b",
 ]
-# anchors of the code shape the Lean model transcribes (worker.rs); a rewrite must be re-modelled
+# anchors of the code shape the Lean model transcribes; a rewrite must be re-modelled.
+# worker.rs: the ORDERED sequence of synchronising statements of `process_jobs` (dispatcher loop,
+# Custom wrapper, non-Custom wrapper, hand-over, close) and of the worker loop.  Every occurrence
+# of one of these tokens in the non-test part is collected in source order and the resulting
+# sequence must be exactly SEQ["worker.rs"] -- a statement that is dropped, duplicated, moved
+# (e.g. the store after fail_job) or replaced (e.g. a copied bool instead of the shared flag)
+# breaks the tie.
+TOKENS = {
+    "worker.rs": [
+        ("disp-load", "if cancelled.load(Ordering::SeqCst) {"),
+        ("wrap-load", "if cancelled_clone.load(Ordering::SeqCst) {"),
+        ("cancelled", "JobResult::Cancelled {"),
+        ("ret-cancelled", "return Err(PdfError::OperationCancelled);"),
+        ("start", ".start_job();"),
+        ("op-custom", "panic::catch_unwind(AssertUnwindSafe(operation))"),
+        ("op-other", "panic::catch_unwind(AssertUnwindSafe(|| execute_job(job)))"),
+        ("complete", ".complete_job();"),
+        ("success", "JobResult::Success {"),
+        ("soe", "if stop_on_error {"),
+        ("store", "cancelled_clone.store(true, Ordering::SeqCst);"),
+        ("fail", ".fail_job();"),
+        ("failed", "JobResult::Failed {"),
+        ("send", ".send("),
+        ("enqueue", ".send(WorkerMessage::Job(idx, wrapped_job))"),
+        ("close-results", "drop(result_sender);"),
+        ("close-jobs", "drop(self.sender);"),
+        ("collect", "results[idx] = Some(result);"),
+        ("flatten", "results.into_iter().flatten().collect()"),
+        ("recv", "receiver.recv()"),
+        ("run", "let _ = operation();"),
+        ("load-any", ".load("),
+        ("store-any", ".store("),
+        ("continue", "continue;"),
+        ("break", "break"),
+    ],
+}
+WRAPPER = ["wrap-load", "load-any", "send", "cancelled", "ret-cancelled", "start", "OP",
+           "complete", "send", "success", "soe", "store", "store-any", "fail", "send", "failed"]
+SEQ = {
+    "worker.rs": (
+        ["collect",
+         "disp-load", "load-any", "send", "cancelled", "continue"]
+        + [("op-custom" if t == "OP" else t) for t in WRAPPER]
+        + [("op-other" if t == "OP" else t) for t in WRAPPER]
+        + ["enqueue", "send", "break", "close-results", "close-jobs", "flatten"]
+    ),
+}
+# plain presence anchors
 SHAPE = {
     "worker.rs": [
-        "if cancelled.load(Ordering::SeqCst) {",
-        "progress_clone.start_job();",
-        "let result = if cancelled_clone.load(Ordering::SeqCst) {",
-        "Err(PdfError::OperationCancelled)",
-        "progress_clone.complete_job();",
-        "progress_clone.fail_job();",
-        "progress_clone2.start_job();",
-        "let result = execute_job(job);",
-        "progress_clone2.complete_job();",
-        "progress_clone2.fail_job();",
-        "if stop_on_error {",
-        "cancelled_clone.store(true, Ordering::SeqCst);",
-        ".send(WorkerMessage::Job(idx, wrapped_job))",
-        "drop(result_sender);",
-        "drop(self.sender);",
-        "results.into_iter().flatten().collect()",
-        "results[idx] = Some(result);",
+        "let message = {",
         "receiver.recv()",
+        "Ok(WorkerMessage::Job(_idx, job)) => {",
+        "fn panic_to_error(",
     ],
     "progress.rs": [
         "self.running_jobs.fetch_add(1, Ordering::SeqCst);",
@@ -62,16 +95,44 @@ SHAPE = {
         "self.completed_jobs.fetch_add(1, Ordering::SeqCst);",
         "self.failed_jobs.fetch_add(1, Ordering::SeqCst);",
         "self.completed_jobs + self.failed_jobs >= self.total_jobs",
+        "let completed = self.completed_jobs.load(Ordering::SeqCst);",
+        "let failed = self.failed_jobs.load(Ordering::SeqCst);",
+        "let running = self.running_jobs.load(Ordering::SeqCst);",
     ],
     "mod.rs": [
+        "if total_jobs == 0 {",
         "while !cancelled.load(Ordering::SeqCst) {",
         "if info.is_complete() {",
         "JobResult::Success { .. } => successful += 1,",
         "JobResult::Failed { .. } => failed += 1,",
+        "JobResult::Cancelled { .. } => {}",
         "cancelled: self.cancelled.load(Ordering::SeqCst),",
         "self.cancelled.store(true, Ordering::SeqCst);",
+        "self.parallelism = parallelism.max(1);",
+    ],
+    "result.rs": [
+        "self.job_results.iter().filter(|r| r.is_success())",
+        "self.job_results.iter().filter(|r| r.is_failed())",
+        "self.job_results.iter().filter(|r| r.is_cancelled())",
+        "self.job_results.iter().all(|r| r.is_success())",
+        "(self.successful as f64 / self.total_jobs as f64) * 100.0",
     ],
 }
+
+
+def statement_sequence(fname, body):
+    """ordered list of token names found in `body` (the part of process_jobs up to its end)"""
+    hits = []
+    for name, needle in TOKENS[fname]:
+        start = 0
+        while True:
+            i = body.find(needle, start)
+            if i < 0:
+                break
+            hits.append((i, name))
+            start = i + 1
+    hits.sort()
+    return [n for _, n in hits]
 
 
 def non_test_part(text):
@@ -115,6 +176,22 @@ def main():
             if anchor not in body:
                 print(f"TIE-BROKEN {f}: modelled statement `{anchor}` no longer present; Model/C22.lean transcribes it")
                 ok = False
+        if f in SEQ:
+            # process_jobs only: from its signature to the next top-level method
+            i0 = body.find("pub fn process_jobs(")
+            i1 = body.find("/// Shutdown the worker pool")
+            if i0 < 0 or i1 < i0:
+                print(f"TIE-BROKEN {f}: cannot delimit WorkerPool::process_jobs")
+                ok = False
+            else:
+                got = statement_sequence(f, body[i0:i1])
+                # the generic tokens also match inside the specific ones at the same offset or later
+                # on the same statement; keep the comparison simple: compare the sequences verbatim
+                if got != SEQ[f]:
+                    k = next((j for j, (x, y) in enumerate(zip(got, SEQ[f])) if x != y), min(len(got), len(SEQ[f])))
+                    print(f"TIE-BROKEN {f}: statement sequence of WorkerPool::process_jobs differs from the one "
+                          f"Model/C22.lean transcribes at position {k}: found {got[max(0,k-2):k+3]}, expected {SEQ[f][max(0,k-2):k+3]}")
+                    ok = False
         out = text.replace("std::sync::", "shuttle::sync::").replace("use std::thread;", "use shuttle::thread;")
         for pat in ESCAPES:
             m = re.search(pat, non_test_part(out))
